@@ -51,6 +51,13 @@ def execute(darsia, ctx, key):
             return darsia.H1_regularization(img, mu=mu, omega=omega)
         s = ctx.setdefault("J5", darsia.Jacobi(maxiter=5))
         return darsia.H1_regularization(img, mu=mu, omega=omega, solver=s)
+    if name in ("H1A", "SBTVDA"):   # H1A|dtype|seed, SBTVDA|dtype|seed : array-valued weight (mask / float32 / float64 field) of one shape
+        rs = np.random.RandomState(int(op[2]))
+        w = rs.rand(8, 6)
+        w = {"bool": (w > 0.4), "int": (1 + (w > 0.4)).astype(np.int64), "float32": (0.5 + w).astype(np.float32), "float64": 0.5 + w}[op[1]]
+        if name == "H1A":
+            return darsia.H1_regularization(_data("a"), mu=0.5, omega=w)
+        return darsia.split_bregman_tvd(_data("a"), mu=0.5, omega=w, ell=1.0, max_num_iter=4, eps=None)
     if name == "H1dim":        # H1dim|img|mu|omega|dim : default solver, spatial dimension passed per call
         return darsia.H1_regularization(_data(op[1]), mu=float(op[2]), omega=float(op[3]), dim=int(op[4]))
     if name == "JACD":         # JACD|mass|diff|dim : same coefficients and mesh size, other spatial dimension
@@ -129,6 +136,8 @@ ALPHABET = {
     "jacobi-object": ["JAC|1.0|0.5|1.0", "JAC|1.0|2.0|0.5", "JAC|2.0|0.5|1.0", "JACD|1.0|0.5|2", "JACD|1.0|0.5|3"],
     "jacobi-array-coefficients": ["JACA|1.0", "JACA|3.0"],
     "jacobi-default-dim": ["H1dim|a|1.0|1.0|2", "H1dim|v|1.0|1.0|3", "H1|a|1.0|1.0|default"],
+    "default-array-weights": ["H1A|bool|3", "H1A|float64|4", "H1A|float32|5", "H1A|int|6", "H1|a|1.0|1.0|default"],
+    "tvd-array-weights": ["SBTVDA|bool|3", "SBTVDA|float64|4", "SBTVDA|float32|5", "SBTVD|a|0.5|1.0"],
     "mg-object": ["MG|1.0|1.0", "MG|1.0|0.1"],
     "mg-heterogeneous": ["MGH|2.0", "MGH|3.0"],
     "mg-coefficients-replaced": ["MGU|A3|A4", "MGU|2.0|0.7", "MGU|2.0|A4", "MGU|A5|0.7"],
